@@ -61,6 +61,9 @@ PoolHist == { Base("r1"), [Base("r1") EXCEPT !.path = <<"dyn", "/X/@m">>],
               [Base("r3") EXCEPT !.host = <<"static", "example.com">>, !.ips = <<<<"in", "10.0.0.0/8">>, <<"not_in", "10.1.0.0/16">>>>],
               [Base("r4") EXCEPT !.scheme = "https", !.methods = <<"GET", "POST">>],
               [Base("r4") EXCEPT !.hdrs = <<H("X-K", "contains", "v")>>, !.times = <<TW>>] }
+\* path-sensitive exploration (VIEW ViewKinds): rules sharing a static path and bucket, a rule under two method buckets, dynamic host
+PoolPaths == { Base("r1"), Base("r4"), [Base("r3") EXCEPT !.path = <<"dyn", "/x/@m">>, !.methods = <<"GET", "POST">>],
+               [Base("r2") EXCEPT !.host = <<"dyn", "@sub.example.com">>] }
 PoolHistQ == { Base("r1"), [Base("r1") EXCEPT !.path = <<"dyn", "/X/@m">>], [Base("r1") EXCEPT !.path = <<"dyn", "/X/@n">>],
                [Base("r2") EXCEPT !.path = <<"dyn", "/X/@m/y">>], [Base("r2") EXCEPT !.host = <<"dyn", "@sub.example.com">>],
                [Base("r3") EXCEPT !.host = <<"static", "example.com">>, !.ips = <<<<"in", "10.0.0.0/8">>, <<"not_in", "10.1.0.0/16">>>>],
@@ -73,6 +76,7 @@ Cfg(a, b, c, d) == [ihc |-> a, ihdr |-> b, ipc |-> c, always |-> d, mkt |-> c]
 CfgsAll == {Cfg(a, b, c, d) : a, b, c, d \in BOOLEAN}
 CfgsQuick == {Cfg(FALSE, FALSE, FALSE, TRUE), Cfg(TRUE, TRUE, TRUE, FALSE), Cfg(FALSE, FALSE, FALSE, FALSE), Cfg(TRUE, TRUE, TRUE, TRUE), Cfg(TRUE, TRUE, FALSE, FALSE)}
 CfgsTwo == {Cfg(FALSE, FALSE, FALSE, TRUE), Cfg(TRUE, TRUE, TRUE, FALSE)}
+CfgsOne == {Cfg(FALSE, FALSE, FALSE, TRUE)}
 
 HL(n, v) == [name |-> n, value |-> v]
 Universe == [ scheme |-> <<"http", "https", "">>,
